@@ -38,8 +38,11 @@ type vfC14Prog struct {
 	NKs      int       `json:"nks"`
 	Pre      [2][2]int `json:"pre"` // initial key counts [ks][branch]
 	Unlocked bool      `json:"unlocked"`
-	Threads  [][]vfCOp `json:"threads"`
-	Procs    int       `json:"procs"`
+	// PreChange: before the concurrent phase the private passphrase is changed and changed back (in this process),
+	// the way a wallet that has been running for a while looks
+	PreChange bool      `json:"preChange,omitempty"`
+	Threads   [][]vfCOp `json:"threads"`
+	Procs     int       `json:"procs"`
 }
 
 const vfC14Pass = "Alpha1#passw"
@@ -47,18 +50,29 @@ const vfC14Pass = "Alpha1#passw"
 var vfC14Kinds = []string{"gen", "gen", "gen", "next", "next", "sign", "sign", "signmsg", "ordinal", "addr", "count", "names", "managers", "remark", "getremark", "export", "lock", "unlock", "islocked", "verify", "spin", "spin"}
 
 func vfGenC14(t *rapid.T) vfC14Prog {
-	p := vfC14Prog{NKs: rapid.IntRange(1, 2).Draw(t, "nks"), Unlocked: rapid.IntRange(0, 3).Draw(t, "unlocked") != 0, Procs: rapid.SampledFrom([]int{1, 2, 4, 8}).Draw(t, "procs")}
+	p := vfC14Prog{NKs: rapid.IntRange(1, 2).Draw(t, "nks"), Unlocked: rapid.IntRange(0, 3).Draw(t, "unlocked") != 0, Procs: rapid.SampledFrom([]int{1, 2, 4, 8}).Draw(t, "procs"),
+		PreChange: rapid.IntRange(0, 2).Draw(t, "preChange") == 0}
 	for k := 0; k < 2; k++ {
 		for b := 0; b < 2; b++ {
 			p.Pre[k][b] = rapid.IntRange(1, 3).Draw(t, "pre")
 		}
 	}
 	nt := rapid.IntRange(2, 4).Draw(t, "threads")
+	// a seventh of the programs concentrate on one kind of operation (so that calls of that kind really overlap)
+	focus := ""
+	if rapid.IntRange(0, 6).Draw(t, "focused") == 0 {
+		focus = rapid.SampledFrom([]string{"export", "export", "sign", "next", "remark", "gen"}).Draw(t, "focus")
+		p.NKs = 2
+	}
 	for i := 0; i < nt; i++ {
 		n := rapid.IntRange(1, 6).Draw(t, "nops")
 		var th []vfCOp
 		for j := 0; j < n; j++ {
 			op := vfCOp{K: rapid.SampledFrom(vfC14Kinds).Draw(t, "kind"), Ks: rapid.IntRange(0, 1).Draw(t, "ks"), Y: rapid.IntRange(0, 3).Draw(t, "yield")}
+			if focus != "" && rapid.IntRange(0, 4).Draw(t, "onFocus") != 0 {
+				op.K = focus
+				op.Ks = (i + j) % 2
+			}
 			switch op.K {
 			case "next":
 				op.N = rapid.SampledFrom([]int{1, 1, 2, 3, 5, 8}).Draw(t, "n")
@@ -207,6 +221,16 @@ func vfC14Run(p vfC14Prog, c *vlib.Ctx) *vlib.Failure {
 			keys[k][b] = mas
 			init.Cnt[k][b] = len(mas)
 		}
+	}
+	if p.PreChange {
+		tmp := "Bravo2$passw0rd"
+		if err := kmc.ChangePrivPassphrase([]byte(vfC14Pass), []byte(tmp), fastScryptVf); err != nil {
+			return vlib.Failf("harness:prechange", "%v", err)
+		}
+		if err := kmc.ChangePrivPassphrase([]byte(tmp), []byte(vfC14Pass), fastScryptVf); err != nil {
+			return vlib.Failf("harness:prechange", "%v", err)
+		}
+		c.Label("passphrase-changed-before")
 	}
 	if p.Unlocked {
 		if err := kmc.Unlock([]byte(vfC14Pass)); err != nil {
@@ -477,7 +501,7 @@ func vfC14Run(p vfC14Prog, c *vlib.Ctx) *vlib.Failure {
 
 var vfC14Spec = vlib.Spec[vfC14Prog]{
 	Prop: "C14", Name: "concurrent-programs", NoShrink: true,
-	Rule: "generated concurrent programs: 2-4 goroutines x 1-6 operations from {plot key issuance, next addresses, sign hash/message, verify, ordinal/address lookup, listings, remark change/read, export, lock, unlock, IsLocked} on 1-2 keystores, start barrier, generated yields and GOMAXPROCS in {1,2,4,8}; built with -race; oracles: race detector (reports attributed to repository frames by the driver), no panic, porcupine linearizability of the recorded call/return history against a sequential wallet model, counters after reopen; non-trivial = at least two goroutines contain a mutating operation; distinct = distinct program JSON",
+	Rule: "generated concurrent programs: 2-4 goroutines x 1-6 operations from {plot key issuance, next addresses, sign hash/message, verify, ordinal/address lookup, listings, remark change/read, export, lock, unlock, IsLocked} on 1-2 keystores (in a third of the programs after a private passphrase change and change back in the same process), start barrier, generated yields and GOMAXPROCS in {1,2,4,8}; built with -race; oracles: race detector (reports attributed to repository frames by the driver), no panic, porcupine linearizability of the recorded call/return history against a sequential wallet model, counters after reopen; non-trivial = at least two goroutines contain a mutating operation; distinct = distinct program JSON",
 	Gen:  vfGenC14, Run: vfC14Run,
 }
 
